@@ -60,7 +60,7 @@ META = dict(
          "capacity for every demand shape, in every dimension (cap_sound1 for one dimension; cap_sound_vec for the executable vector model with any "
          "number of dimensions; cap_complete1 / cap_exact1: on a tour with non-negative loads and for demands without a static pickup next to a "
          "larger dynamic delivery the O(1) test refuses nothing the profile admits, the caches being attained - runMax1_attained, "
-         "maxFuture1_attained; every component of the vector profile and caches IS the one-dimensional model, map_pr_loadProfile / "
+         "maxFuture1_attained; route_precheck_necessary: the route-level pre-check (static delivery part at the start, the rest at the end - the repair of S43) passes whenever the job is admissible at ANY position, so it never hides an admissible position; every component of the vector profile and caches IS the one-dimensional model, map_pr_loadProfile / "
          "map_pr_runMax / map_pr_maxFuture, and a vector verdict `none` gives the one-dimensional verdict in every component, viol1_of_vec). "
          "Tie: exact differential run (position, place, window, cost vector, schedule) of the real eval_job_insertion_in_route for Any and "
          "every Concrete(p) against the model, plus brute-force simulation oracles on the implementation's own placements (soundness for "
